@@ -157,7 +157,8 @@ func (s *OnDiskAggTrigger) Fire(keyPath string, records []trigger.Record) {
 			return
 		}
 
-		cs = io.ColumnSeriesUnion(cs, &c.cs)
+		// the rows just written replace cached rows of the same epoch (right wins)
+		cs = io.ColumnSeriesUnion(&c.cs, cs)
 
 		s.write(tbk, cs, tail, head, elements)
 
